@@ -179,13 +179,23 @@ theorem setSecond_eval (p : Parsed) (hp : p.second = none) (s : Nat) :
 
 /-! ### resolution of year-month-day and hour-minute-second fields -/
 
-theorem toNaiveDate_ymd (y : Int) (m d : Nat) (wd : Option Nat) :
-    ({ year := some y, month := some m, day := some d, weekday := wd } : Parsed).toNaiveDate =
+theorem route_ymd (p : Parsed) (y : Int) (giy : Option Int) (m d : Nat) (hm : p.month = some m) (hd : p.day = some d) :
+    p.route (some y) giy = .ymd y m d := by
+  simp [Parsed.route, hm, hd]
+
+/-- year, month, day (and possibly a weekday, which must agree) given, no other date field -/
+theorem toNaiveDate_ymd_of (p : Parsed) (y : Int) (m d : Nat) (wd : Option Nat)
+    (e1 : p.year = some y) (e2 : p.month = some m) (e3 : p.day = some d) (e4 : p.weekday = wd)
+    (n1 : p.yearDiv100 = none) (n2 : p.yearMod100 = none) (n3 : p.isoYear = none) (n4 : p.isoYearMod100 = none)
+    (n5 : p.quarter = none) (n6 : p.weekFromSun = none) (n7 : p.weekFromMon = none) (n8 : p.isoWeek = none)
+    (n9 : p.ordinal = none) :
+    p.toNaiveDate =
       if validDate y m d then
         (if optEqOr wd (weekday (daysFromCivil y m d)) then .ok (daysFromCivil y m d) else .error .impossible)
       else .error .outOfRange := by
   by_cases hv : validDate y m d = true
-  · simp only [Parsed.toNaiveDate, resolveYear, fromYmd, hv, if_true, verifyIsoWeekDate, verifyOrdinal, optEqOr,
+  · simp only [Parsed.toNaiveDate, e1, n1, n2, n3, n4, resolveYear, route_ymd p y none m d e2 e3, Parsed.candidate,
+      fromYmd, hv, if_true, verifyIsoWeekDate, verifyOrdinal, optEqOr, e4, n5, n6, n7, n8, n9,
       Option.isNone, Bool.and_true, Bool.true_and, ite_self]
     cases wd with
     | none => simp [optEqOr]
@@ -193,7 +203,14 @@ theorem toNaiveDate_ymd (y : Int) (m d : Nat) (wd : Option Nat) :
       by_cases hw : w = weekday (daysFromCivil y m d)
       · simp [optEqOr, hw]
       · simp [optEqOr, hw]
-  · simp [Parsed.toNaiveDate, resolveYear, fromYmd, hv]
+  · simp [Parsed.toNaiveDate, e1, n1, n2, n3, n4, resolveYear, route_ymd p y none m d e2 e3, Parsed.candidate, fromYmd, hv]
+
+theorem toNaiveDate_ymd (y : Int) (m d : Nat) (wd : Option Nat) :
+    ({ year := some y, month := some m, day := some d, weekday := wd } : Parsed).toNaiveDate =
+      if validDate y m d then
+        (if optEqOr wd (weekday (daysFromCivil y m d)) then .ok (daysFromCivil y m d) else .error .impossible)
+      else .error .outOfRange :=
+  toNaiveDate_ymd_of _ y m d wd rfl rfl rfl rfl rfl rfl rfl rfl rfl rfl rfl rfl rfl
 
 /-- the date fields do not matter for the time, and vice versa: stated for the field sets the default formats and the
     RFC parsers produce -/
@@ -203,5 +220,26 @@ theorem toNaiveTime_hms (p : Parsed) (h mi s : Nat) (n : Option Nat)
     p.toNaiveTime = .ok ⟨h * 3600 + mi * 60 + min s 59, (if s = 60 then 1000000000 else 0) + n.getD 0⟩ := by
   have e : (h / 12 * 12 + h % 12) = h := by omega
   cases n <;> simp [Parsed.toNaiveTime, e1, e2, e3, e4, e5, e]
+
+/-! ### the overflow predicate is false without an ISO week number -/
+
+theorem route_not_iso (p : Parsed) (gy giy : Option Int) (h : p.isoWeek = none) (iy : Int) (iw wd : Nat) :
+    p.route gy giy ≠ .iso iy iw wd := by
+  unfold Parsed.route
+  rw [h]
+  split <;> simp_all
+
+theorem dateOverflow_isoWeek_none (p : Parsed) (h : p.isoWeek = none) : p.dateOverflow = false := by
+  unfold Parsed.dateOverflow
+  split
+  · split
+    · rename_i heq
+      exact absurd heq (route_not_iso p _ _ h _ _ _)
+    · rfl
+  · rfl
+
+theorem datetimeOverflow_ok (p : Parsed) (off : Int) (h : p.isoWeek = none) (d : Int) (t : NTime)
+    (hd : p.toNaiveDate = .ok d) (ht : p.toNaiveTime = .ok t) : p.datetimeOverflow off = false := by
+  simp [Parsed.datetimeOverflow, dateOverflow_isoWeek_none p h, hd, ht]
 
 end Slac.Time
